@@ -373,6 +373,41 @@ def rvalue_places(rv):
     return [p for p in out if p is not None]
 
 
+_INTERN = {}
+
+
+def _intern(x):
+    """share equal strings (the pickle then stores each distinct string once)"""
+    if isinstance(x, str):
+        y = _INTERN.get(x)
+        if y is None:
+            _INTERN[x] = x
+            return x
+        return y
+    if isinstance(x, list):
+        for i, v in enumerate(x):
+            if isinstance(v, (str, list, dict)):
+                x[i] = _intern(v)
+        return x
+    if isinstance(x, dict):
+        for k in list(x.keys()):
+            v = x[k]
+            if isinstance(v, (str, list, dict)):
+                x[k] = _intern(v)
+        return x
+    return x
+
+
+def _prune(o):
+    """drop what no analysis uses: StorageLive markers and the contents of cleanup (unwind-only) blocks; block indices are kept"""
+    for bl in o["blocks"]:
+        if bl.get("cleanup"):
+            bl["s"] = []
+            bl["term"] = {"t": "resume", "line": bl["term"].get("line", 0)}
+        else:
+            bl["s"] = [st for st in bl["s"] if st[0] != "SL"]
+
+
 class Facts:
     def __init__(self, facts_dir):
         self.dir = facts_dir
@@ -387,9 +422,10 @@ class Facts:
                 continue
             with open(os.path.join(facts_dir, fn)) as fh:
                 for line in fh:
-                    o = json.loads(line)
+                    o = _intern(json.loads(line))
                     k = o["k"]
                     if k == "body":
+                        _prune(o)
                         self.bodies[o["id"]] = Body(o)
                     elif k == "adt":
                         self.adts[o["id"]] = o
